@@ -100,6 +100,9 @@ struct Net {
     now: Duration,
     faults: bool,
     gentle: bool,
+    /// development mode of both transports: ServerAuthentication::Unsecure / ClientAuthentication::Unsecure (tokens made by the
+    /// client itself: 15 s timeout, the one server address)
+    unsecure: bool,
     timeout_s: u64,
     tick_ms: u64,
     /// server events per id: true = currently connected according to the event stream
@@ -129,8 +132,13 @@ impl Net {
         let back = sock()?;
         let back_addr = back.local_addr().unwrap();
         let ud = user_data(id);
-        let token = ConnectToken::generate(self.now, PROTO, 600, id, self.timeout_s as i32, if silent_first_address { vec![self.dead_addr, self.front_addr] } else { vec![self.front_addr] }, Some(&ud), &key(1)).map_err(|e| Fail::new("token", e.to_string()))?;
-        let transport = NetcodeClientTransport::new(self.now, ClientAuthentication::Secure { connect_token: token }, csock).map_err(|e| Fail::new("client_transport", e.to_string()))?;
+        let auth = if self.unsecure {
+            ClientAuthentication::Unsecure { protocol_id: PROTO, client_id: id, server_addr: self.front_addr, user_data: Some(ud) }
+        } else {
+            let token = ConnectToken::generate(self.now, PROTO, 600, id, self.timeout_s as i32, if silent_first_address { vec![self.dead_addr, self.front_addr] } else { vec![self.front_addr] }, Some(&ud), &key(1)).map_err(|e| Fail::new("token", e.to_string()))?;
+            ClientAuthentication::Secure { connect_token: token }
+        };
+        let transport = NetcodeClientTransport::new(self.now, auth, csock).map_err(|e| Fail::new("client_transport", e.to_string()))?;
         let client = RenetClient::new(stack_config(false));
         self.clients.push(ClientEnd {
             id,
@@ -553,7 +561,7 @@ impl Property for C20 {
         "fault_enumeration"
     }
     fn rule(&self) -> String {
-        "A case runs the real NetcodeServerTransport and 1-3 NetcodeClientTransports (plus reconnecting client objects with new tokens; some tokens list a silent address before the real one, so the client fails over first) on loopback UDP sockets through an in-path relay that the harness thread pumps after every transport call. Relay fault decision per (client, direction, datagram): forward / drop / duplicate / delay 1-6 ticks (hence reorder) / flip one bit / forward and replay an old datagram of that link; whole-silence periods; application traffic on all three default channels in both directions and broadcasts; disconnects decided by RenetClient::disconnect, NetcodeClientTransport::disconnect, RenetServer::disconnect, NetcodeServerTransport::disconnect_all, by silence (timeouts) and by the receiving message layer itself while it processes a datagram (a peer sends more than the receiver's budget of the extra channel 3, or on a channel only the sender knows); reconnects. Oracles: right after every NetcodeServerTransport::update the ids the message layer reports connected equal the ids the netcode layer holds (client_addr, connected_clients), no disconnected connection is left, and equal the ids open in the ServerEvent stream, which alternates per id and only names ids that hold a token; every message obtained over the full stack satisfies the ordered-prefix / unordered-at-most-once / unreliable-membership oracles of its session; after the faults stop and timeout + 3 s of fault-free ticks every session for which a disconnect was decided anywhere has ended on both sides, and every session that stayed healthy has obtained all reliable messages; in 'gentle' cases (no disconnect operation, no silence, at least one genuine datagram per direction forwarded in every third of the timeout) nobody is ever disconnected whatever else the relay does, and at the end every client is connected in both layers on both sides; a transport update never reports 'nothing more to read' (WouldBlock) as an error. Non-trivial: at least one corrupted or replayed datagram after a handshake completed and at least one relay fault. Distinct = hash of the decoded operation trace.".into()
+        "A case runs the real NetcodeServerTransport and 1-3 NetcodeClientTransports (secure authentication with generated tokens, or in some cases the Unsecure development mode of both transports) (plus reconnecting client objects with new tokens; some tokens list a silent address before the real one, so the client fails over first) on loopback UDP sockets through an in-path relay that the harness thread pumps after every transport call. Relay fault decision per (client, direction, datagram): forward / drop / duplicate / delay 1-6 ticks (hence reorder) / flip one bit / forward and replay an old datagram of that link; whole-silence periods; application traffic on all three default channels in both directions and broadcasts; disconnects decided by RenetClient::disconnect, NetcodeClientTransport::disconnect, RenetServer::disconnect, NetcodeServerTransport::disconnect_all, by silence (timeouts) and by the receiving message layer itself while it processes a datagram (a peer sends more than the receiver's budget of the extra channel 3, or on a channel only the sender knows); reconnects. Oracles: right after every NetcodeServerTransport::update the ids the message layer reports connected equal the ids the netcode layer holds (client_addr, connected_clients), no disconnected connection is left, and equal the ids open in the ServerEvent stream, which alternates per id and only names ids that hold a token; every message obtained over the full stack satisfies the ordered-prefix / unordered-at-most-once / unreliable-membership oracles of its session; after the faults stop and timeout + 3 s of fault-free ticks every session for which a disconnect was decided anywhere has ended on both sides, and every session that stayed healthy has obtained all reliable messages; in 'gentle' cases (no disconnect operation, no silence, at least one genuine datagram per direction forwarded in every third of the timeout) nobody is ever disconnected whatever else the relay does, and at the end every client is connected in both layers on both sides; a transport update never reports 'nothing more to read' (WouldBlock) as an error. Non-trivial: at least one corrupted or replayed datagram after a handshake completed and at least one relay fault. Distinct = hash of the decoded operation trace.".into()
     }
     fn assumptions(&self) -> Vec<String> {
         vec![
@@ -566,7 +574,7 @@ impl Property for C20 {
         PbtCfg { cases: tier.pick(15_000, 300_000), max_len: tier.pick(1200, 5000), shrink_ms: 120_000 }
     }
     fn required_labels(&self) -> Vec<&'static str> {
-        vec!["relay_corrupt", "relay_replay", "relay_drop", "relay_dup", "relay_delay", "client_disconnect", "transport_disconnect", "server_disconnect", "disconnect_all", "timeout_by_silence", "gentle_case", "reconnect", "event_connected", "event_disconnected", "e2e_messages", "poison_to_client", "poison_to_server", "server_msg_layer_disconnect", "client_msg_layer_disconnect", "silent_first_address"]
+        vec!["relay_corrupt", "relay_replay", "relay_drop", "relay_dup", "relay_delay", "client_disconnect", "transport_disconnect", "server_disconnect", "disconnect_all", "timeout_by_silence", "gentle_case", "reconnect", "event_connected", "event_disconnected", "e2e_messages", "poison_to_client", "poison_to_server", "server_msg_layer_disconnect", "client_msg_layer_disconnect", "silent_first_address", "unsecure_authentication"]
     }
     fn run_choices(&self, ctx: &mut Ctx) -> Outcome {
         renetcode::verif::set_rng_seed(Some(ctx.src.u16() as u64 | 1));
@@ -577,14 +585,19 @@ impl Property for C20 {
         let dead = sock()?;
         let dead_addr = dead.local_addr().unwrap();
         let now = Duration::from_secs(500);
-        let timeout_s = ctx.src.pick(&[3u64, 2, 5]);
+        let unsecure = ctx.src.chance(20);
+        // unsecure clients make their own token: the timeout is fixed at 15 s
+        let timeout_s = if unsecure { 15 } else { ctx.src.pick(&[3u64, 2, 5]) };
+        if unsecure {
+            ctx.label("unsecure_authentication");
+        }
         let tick_ms = ctx.src.pick(&[50u64, 16, 100]);
         let gentle = ctx.src.chance(70);
         if gentle {
             ctx.label("gentle_case");
         }
         let st = NetcodeServerTransport::new(
-            ServerConfig { current_time: now, max_clients: 4, protocol_id: PROTO, public_addresses: vec![front_addr], authentication: ServerAuthentication::Secure { private_key: key(1) } },
+            ServerConfig { current_time: now, max_clients: 4, protocol_id: PROTO, public_addresses: vec![front_addr], authentication: if unsecure { ServerAuthentication::Unsecure } else { ServerAuthentication::Secure { private_key: key(1) } } },
             ssock,
         )
         .map_err(|e| Fail::new("harness_socket", e.to_string()).sig("harness_io"))?;
@@ -601,6 +614,7 @@ impl Property for C20 {
             now,
             faults: true,
             gentle,
+            unsecure,
             timeout_s,
             tick_ms,
             ev_open: BTreeMap::new(),
@@ -609,10 +623,10 @@ impl Property for C20 {
             replayed: 0,
         };
         let n0 = 1 + ctx.src.below(3);
-        ctx.op(&(n0, timeout_s, tick_ms, gentle));
+        ctx.op(&(n0, timeout_s, tick_ms, gentle, unsecure));
         for i in 0..n0 {
             // some tokens list a silent address first: the client connects to the real one only after failing over
-            let silent_first = timeout_s <= 3 && ctx.src.chance(40);
+            let silent_first = !unsecure && timeout_s <= 3 && ctx.src.chance(40);
             if silent_first {
                 ctx.label("silent_first_address");
             }
